@@ -1,2 +1,43 @@
-(* P_C10.v — property C09: theorems only (in progress). *)
-From RS Require Import Base Network Tour SchedObs.
+(* P_C10.v — property C10: theorems only. What the structural invariant means (a passing [check_inv], evaluated on
+   the state after every modification of every generated history, on every stage snapshot of every pipeline run
+   and on every dumped local-search candidate). That the invariant holds after ALL histories is not proved
+   at schedule level (no functional model of schedule/modifications.rs); what is proved for all inputs:
+   the tour edits (C12), the rotation-cycle operations (C15, P_C15.v), the formation list operations (C13). *)
+From RS Require Import Base Network NetSpec Tour SchedObs InvStmts InvFacts TransSpec TransStmts TransFacts.
+
+(* every vehicle tour is a path from a start depot to an end depot over activities only, consecutive nodes
+   connectable under the documented rule, service trips of the vehicle's type *)
+Theorem C10_inv_tours : forall nw o, stmt_inv_tours nw o.
+Proof. exact inv_tours. Qed.
+Print Assumptions C10_inv_tours.
+
+(* a vehicle is in the formation of a node exactly if its tour contains the node, never twice *)
+Theorem C10_inv_formations :
+  forall nw o, (forall n, In n (nw_maint nw) -> is_maint (nd nw n) = true) -> stmt_inv_formations nw o.
+Proof. exact inv_formations_partial. Qed.
+Print Assumptions C10_inv_formations.
+(* (without the hypothesis that the listed maintenance ids are maintenance nodes the statement is false) *)
+Theorem C10_inv_formations_unrestricted_refuted : ~ (forall nw o, stmt_inv_formations nw o).
+Proof. exact inv_formations_false. Qed.
+Print Assumptions C10_inv_formations_unrestricted_refuted.
+
+(* formation, track and depot limits *)
+Theorem C10_inv_limits : forall nw o, stmt_inv_limits nw o.
+Proof. exact inv_limits. Qed.
+Print Assumptions C10_inv_limits.
+
+(* every real vehicle belongs to exactly one rotation cycle of its type *)
+Theorem C10_inv_cycles : forall nw o, stmt_inv_cycles nw o.
+Proof. exact inv_cycles. Qed.
+Print Assumptions C10_inv_cycles.
+
+(* the rotation-cycle part of the invariant is preserved by every transition operation, for all histories *)
+Theorem C10_cycles_update : stmt_update_inv.
+Proof. exact update_inv. Qed.
+Print Assumptions C10_cycles_update.
+Theorem C10_cycles_add : stmt_add_own_inv.
+Proof. exact add_own_inv. Qed.
+Print Assumptions C10_cycles_add.
+Theorem C10_cycles_remove : stmt_remove_inv.
+Proof. exact remove_inv. Qed.
+Print Assumptions C10_cycles_remove.
